@@ -169,12 +169,33 @@ theorem source_entry_roundtrip (o : Opts) (k : FlistTie.Kind) (name : Str) (size
       · simp [hk, hsum hc hk]
       · simp [hk]
 
-/-- **Regenerated fact**: both sides order the list with the *same* sort function and the same
-comparison (`sort.Slice`, `<` on the name). `same_numbering` needs distinct names because that sort is
-not stable; for lists with equal names (several sources naming the same file) the two sides still
-agree as long as they run the same deterministic algorithm on the same wire order — which is what
-this fact pins. A stable sort on one side only numbers equal names differently. -/
+/-- **Regenerated fact**: both sides order the list with the *same*, *stable* sort function and the same
+comparison (`sort.SliceStable`, `<` on the name) — since the repair of D34; before it both used the unstable
+`sort.Slice`, which agrees with itself but not with a receiver that sorts stably (tridge rsync) once more than a
+dozen entries are sorted and names repeat. -/
 theorem both_sides_sort_alike :
-    Gen.FlistConds.senderSort = Gen.FlistConds.receiverSort ∧ Gen.FlistConds.senderSort = "sort.Slice by <;" := by decide
+    Gen.FlistConds.senderSort = Gen.FlistConds.receiverSort ∧ Gen.FlistConds.senderSort = "sort.SliceStable by <;" := by decide
+
+/-- "sorted by name, equal names in wire order": what a stable sort of a list tagged with wire positions yields -/
+def StableLe (le : Str → Str → Prop) (a b : Entry × Nat) : Prop :=
+  le a.1.name b.1.name ∧ (a.1.name = b.1.name → a.2 ≤ b.2)
+
+/-- **Both sides number the files identically also when names repeat** (several source arguments naming the same
+files): any two arrangements of the list that are sorted by name and keep equal names in wire order — i.e. the results
+of any two *stable* sorts, gokrazy's `sort.SliceStable` and a peer's merge sort alike — are the same list. -/
+theorem stable_numbering {le : Str → Str → Prop} (anti : ∀ a b, le a b → le b a → a = b)
+    (l s r : List (Entry × Nat)) (hs : s.Perm l) (hr : r.Perm l)
+    (hss : s.Pairwise (StableLe le)) (hrs : r.Pairwise (StableLe le))
+    (hsame : ∀ a ∈ l, ∀ b ∈ l, a.2 = b.2 → a = b) : s = r := by
+  apply List.Perm.eq_of_pairwise (le := StableLe le) _ hss hrs (hs.trans hr.symm)
+  intro a b ha hb h1 h2
+  have hn := anti _ _ h1.1 h2.1
+  have ht : a.2 = b.2 := Nat.le_antisymm (h1.2 hn) (h2.2 hn.symm)
+  exact hsame a (hs.subset ha) b (hr.subset hb) ht
+
+/-- non-vacuity: two entries with the same name, tagged 0 and 1, in wire order -/
+example : [((⟨[97], 1, 0, 0, 0, 0, 0, [], []⟩ : Entry), 0), (⟨[97], 2, 0, 0, 0, 0, 0, [], []⟩, 1)].Pairwise
+    (StableLe (fun a b => a = b ∨ a ≠ b)) := by
+  simp [StableLe]
 
 end C15
